@@ -15,6 +15,7 @@ DECIDED = ["R07 every panic-capable site reachable from opening/reading is struc
 UNDECIDED = ["arithmetic-overflow asserts outside the decoders (hundreds; they wrap in release builds) are counted, not triaged",
              "infinite loops on corrupted adjacency lists", "correctness of the justified table itself"]
 
+READY = False   # under triage: not claimed in MANIFEST until every site is triaged
 JUSTIFIED = {}
 
 ENTRY = ["agdb::db::DbImpl::new", "agdb::db::DbImpl::with_data", "agdb::db::DbImpl::exec", "agdb::db::DbImpl::transaction",
